@@ -108,7 +108,11 @@ def run (ctx : Algo.Ctx) (op : String) (args impl : List String) : Outcome :=
             let allowed := shown
             if b printq ∧ printed.head? != some query ∧ !(b print0 == false ∧ query.contains 10) then specFail "[C07] --print-query line is not first"
             else if term == inDelim ∨ !(shown.any (·.contains term)) then
-              if !body.all (fun r => allowed.contains r) then specFail "[C07] a printed record is not an input record byte for byte"
+              if !body.all (fun r => allowed.contains r) then
+                (if b ansi ∧ ctx.prop == "C11" then specFail "[C11] a printed record is not an input record with exactly its escape sequences removed"
+                 else specFail "[C07] a printed record is not an input record byte for byte")
+              else if b ansi ∧ ctx.prop == "C11" ∧ body != out then
+                specFail "[C11] the lines found under --ansi are not the lines whose text without escape sequences matches"
               else if c != (if body.isEmpty then "1" else "0") then specFail "[C07] exit status is not 0 iff a result was output"
               else if body.length != out.length ∧ ctx.prop == "C06" then specFail "[C06] number of items differs from number of records"
               else specOk
